@@ -48,6 +48,9 @@ pub(crate) enum Ev {
     StaleProof(usize),
     Tick(usize),
     FetchTick,
+    /// the peer answers an outstanding proof request with "my tip changed": its next block as the
+    /// new last header and an empty proof (the client then asks again)
+    NewTip(usize),
 }
 
 #[derive(Clone, Debug, PartialEq, Eq)]
@@ -150,6 +153,7 @@ struct Track {
     stales: u32,
     ticks: u32,
     fetch_ticks: u32,
+    new_tips: u32,
 }
 
 pub(crate) struct FsmModel<'a> {
@@ -285,6 +289,9 @@ impl<'a> Model for FsmModel<'a> {
             if t.stales < 1 && t.first_proof.contains_key(&p) {
                 v.push(Ev::StaleProof(p));
             }
+            if t.new_tips < 1 && sim.c().peers.get_state(&PeerIndex::new(p)).map(|s| s.get_prove_request().is_some()).unwrap_or(false) {
+                v.push(Ev::NewTip(p));
+            }
         }
         if t.ticks < 3 {
             for i in 0..TICKS.len() {
@@ -378,6 +385,20 @@ impl<'a> Model for FsmModel<'a> {
                 self.track.borrow_mut().fetch_ticks += 1;
                 sim.cm().tick_lc(1);
                 sim.pump_out();
+            }
+            Ev::NewTip(p) => {
+                {
+                    let mut t = self.track.borrow_mut();
+                    t.new_tips += 1;
+                    t.step.peer = Some(*p);
+                }
+                // the answer that was computed for the old tip never arrives
+                sim.queue.retain(|m| !(m.peer == *p && scen::lc_kind(&m.data).as_deref() == Some("SendLastStateProof")));
+                let h = sim.world.peer(*p).height + 1;
+                sim.world.peer_mut(*p).height = h;
+                let vh = sim.world.view(*p).chain.vh(h);
+                let msg = packed::LightClientMessage::new_builder().set(packed::SendLastStateProof::new_builder().last_header(vh).build()).build();
+                self.deliver(sim, InFlight { proto: Proto::LightClient, peer: *p, data: msg.as_bytes(), note: format!("SendLastStateProof(new tip {}, empty)", h) });
             }
         }
         // what the client did during the event
@@ -491,6 +512,18 @@ impl<'a> Model for FsmModel<'a> {
                     causes.insert(Cause::Copy);
                 }
             }
+            // ---- a request sent in this event carries its own time (the message timeout of a
+            // repeated request starts with the repetition, not with the first one)
+            if step.sent.iter().any(|(q, k)| *q == p && (k == "GetLastState" || k == "GetLastStateProof")) {
+                if let Some(w) = as_.when_sent {
+                    if w != step.now {
+                        bad.push((
+                            "request-time-not-recorded".into(),
+                            format!("peer {} in {}: a request was sent at {} but the state records {} as its sending time (the message timeout would hit {} ms early)", p, NAMES[as_.variant as usize], step.now, w, step.now.saturating_sub(w)),
+                        ));
+                    }
+                }
+            }
             self.edges_seen.borrow_mut().insert(format!("{}->{}", NAMES[bs.variant as usize], NAMES[as_.variant as usize]));
             // ---- the variant moved along diagram edges whose cause occurred
             if bs.variant != as_.variant {
@@ -577,7 +610,7 @@ impl<'a> Model for FsmModel<'a> {
             hasher.update(&p.height.to_le_bytes());
         }
         let t = self.track.borrow();
-        hasher.update(&[t.connects as u8, t.disconnects as u8, t.announces as u8, t.dups as u8, t.stales as u8, t.ticks as u8, t.fetch_ticks as u8]);
+        hasher.update(&[t.connects as u8, t.disconnects as u8, t.announces as u8, t.dups as u8, t.stales as u8, t.ticks as u8, t.fetch_ticks as u8, t.new_tips as u8]);
         for (p, m) in &t.first_proof {
             hasher.update(&[*p as u8]);
             hasher.update(&m.data);
@@ -603,6 +636,7 @@ fn parse_ev(s: &str) -> Option<Ev> {
         "StaleProof" => Ev::StaleProof(*a.first()? as usize),
         "Tick" => Ev::Tick(*a.first()? as usize),
         "FetchTick" => Ev::FetchTick,
+        "NewTip" => Ev::NewTip(*a.first()? as usize),
         _ => return None,
     })
 }
